@@ -49,7 +49,7 @@ BASE['B'] = """base deck B
 11 0 11:-12:13:-14 imp:n=0
 20 3 -1.0 -21 22 -23 24 lat=1 u=1 fill=0:1 0:1 2 3r imp:n=1
 31 1 -2.70 -31 u=2 imp:n=1
-32 0 31 u=2 trcl=(0.25 0 0) imp:n=1
+32 0 31 u=2 trcl=(0.25 0 -0.125) imp:n=1
 
 11 px 4
 12 px -4
@@ -67,7 +67,7 @@ m3 1001 -0.11 8016 -0.89
 BASE['C'] = """base deck C
 1 1 -2.7 -1 imp:n=1
 2 like 1 but trcl=(5 0 0) rho=-1.35
-3 0 -2 #1 #2 fill=4 (0 0 1) imp:n=1
+3 0 -2 #1 #2 fill=4 (-0.5 0 1) imp:n=1
 4 0 2 imp:n=0
 41 2 -7.8 -3 u=4 imp:n=1
 42 0 3 u=4 *trcl=(0 0 0.5 0 90 90 90 0 90 90 90 0) imp:n=1
@@ -135,6 +135,11 @@ def respellings(tok):
         mant2 = dec(a * 10.0)
         if fval(mant2 + 'e-1') == a:
             out += ['%s%s-1' % (sign, mant2), '%s%sD-1' % (sign, mant2)]
+    if 0 < a < 1 and 'e' not in base:
+        nz = base[1:]                      # '.5'
+        out += [sign + nz, sign + nz + '0', sign + nz + 'e0', sign + nz + 'E+00']
+        if not sign:
+            out.append('+' + nz)
     res = []
     for o in out:
         try:
@@ -229,27 +234,16 @@ def number_sites(kind, line):
     elif kind == 'c':
         if len(words) > 2 and words[1] != '0' and words[1].lower() != 'like' and RE_NUM.match(words[2]):
             dens = idx[2]
-        # numbers inside parentheses of trcl / fill transformations
+        # numbers inside the parentheses of trcl / fill transformations (parentheses may be glued to them)
         depth = 0
         for j, w in enumerate(words):
-            if '(' in w and ('trcl' in w.lower() or (j > 0 and 'fill' in words[j - 1].lower())
-                             or 'fill' in w.lower()):
-                depth = 1
-                inner = w.split('(')[-1]
-                if RE_NUM.match(inner.rstrip(')')) and False:
-                    pass
-                if ')' in w:
-                    depth = 0
-                continue
-            if depth:
-                core = w.rstrip(')')
-                if RE_NUM.match(core) and core == w:
+            lw = w.lower()
+            opens = '(' in w and ('trcl' in lw or 'fill' in lw or (j > 0 and 'fill' in words[j - 1].lower()))
+            if opens or depth:
+                core = w.split('(')[-1].rstrip(')')
+                if core and RE_NUM.match(core):
                     sites.append(idx[j])
-                if ')' in w:
-                    depth = 0
-        for j, w in enumerate(words):
-            if w.lower().startswith('rho=') and RE_NUM.match(w[4:]):
-                pass
+                depth = 0 if ')' in w else 1
     return toks, sites, dens
 
 
@@ -371,8 +365,10 @@ def rewrites(text):
             if single and '$' not in L and '&' not in L and '\t' not in L:
                 toks, sites, dens = number_sites(kind, L)
                 for k in cap(sites):
-                    for alt in respellings(toks[k]):
-                        nl = ' '.join(toks[:k] + [alt] + toks[k + 1:])
+                    m = re.match(r'^(.*\()?(' + NUM + r')(\)*)$', toks[k])
+                    pre, core, post = (m.group(1) or ''), m.group(2), m.group(3)
+                    for alt in respellings(core):
+                        nl = ' '.join(toks[:k] + [pre + alt + post] + toks[k + 1:])
                         form = ('numD' if re.search(r'[dD]', alt) else
                                 'numF' if re.search(r'\d[-+]\d', alt) else 'num')
                         put('%s:%s#%d=%s' % (form, tag, k, alt), lines[:s] + [nl] + lines[s + 1:])
